@@ -68,6 +68,47 @@ pub mod clock {
     }
 }
 
+/// Sequential uids. When enabled, `security::new_uid()` returns the big-endian value of a process-wide
+/// counter instead of random bytes, so that uid order (the order SQLite returns the references of one
+/// list in) is creation order. Off by default.
+pub mod uid {
+    use std::sync::atomic::{AtomicBool, AtomicU64, Ordering};
+
+    static ENABLED: AtomicBool = AtomicBool::new(false);
+    static DESCENDING: AtomicBool = AtomicBool::new(false);
+    static NEXT: AtomicU64 = AtomicU64::new(1);
+
+    pub fn next() -> Option<[u8; 16]> {
+        if ENABLED.load(Ordering::SeqCst) {
+            let n = if DESCENDING.load(Ordering::SeqCst) {
+                NEXT.fetch_sub(1, Ordering::SeqCst)
+            } else {
+                NEXT.fetch_add(1, Ordering::SeqCst)
+            };
+            let mut uid = [0u8; 16];
+            uid[8..].copy_from_slice(&n.to_be_bytes());
+            uid[0] = 0x7f;
+            Some(uid)
+        } else {
+            None
+        }
+    }
+    pub fn set_sequential(start: u64) {
+        NEXT.store(start, Ordering::SeqCst);
+        DESCENDING.store(false, Ordering::SeqCst);
+        ENABLED.store(true, Ordering::SeqCst);
+    }
+    /// uid order is the REVERSE of creation order
+    pub fn set_descending(start: u64) {
+        NEXT.store(start, Ordering::SeqCst);
+        DESCENDING.store(true, Ordering::SeqCst);
+        ENABLED.store(true, Ordering::SeqCst);
+    }
+    pub fn clear() {
+        ENABLED.store(false, Ordering::SeqCst);
+    }
+}
+
 /// Fault points: a named point can be armed to fail (return `true` from `hit`) or abort the
 /// process at its k-th hit. Unarmed points only count.
 pub mod fault {
